@@ -30,6 +30,7 @@ type Result struct {
 	Samples            []any                       `json:"samples"`
 	Histograms         map[string]map[string]int64 `json:"histograms"`
 	Failures           []Failure                   `json:"failures"`
+	Observations       []Failure                   `json:"observations"`
 	DriverRequests     int64                       `json:"driver_requests"`
 }
 
@@ -51,7 +52,7 @@ type Ctx struct {
 
 func NewCtx() *Ctx {
 	return &Ctx{seen: map[[16]byte]struct{}{}, failKeys: map[string]int{},
-		res: Result{Histograms: map[string]map[string]int64{}, Samples: []any{}, Failures: []Failure{}}}
+		res: Result{Histograms: map[string]map[string]int64{}, Samples: []any{}, Failures: []Failure{}, Observations: []Failure{}}}
 }
 
 func (c *Ctx) Thorough() bool { return c.Tier == "thorough" }
@@ -124,12 +125,26 @@ func (c *Ctx) Fail(layer, key, what string, detail any) {
 	c.mu.Unlock()
 }
 
+// Observe records behaviour that is worth reporting but lies outside what the property states
+// (e.g. a decoder panicking on a malformed stream when the property quantifies over encoder
+// outputs only). Observations never influence the verdict.
+func (c *Ctx) Observe(key, what string, detail any) {
+	c.mu.Lock()
+	c.failKeys["obs/"+key]++
+	if c.failKeys["obs/"+key] <= 1 {
+		c.res.Observations = append(c.res.Observations, Failure{Layer: "observation", Key: key, What: what, Detail: detail})
+	}
+	c.mu.Unlock()
+}
+
 func (c *Ctx) FailCount() int {
 	c.mu.Lock()
 	defer c.mu.Unlock()
 	n := 0
-	for _, v := range c.failKeys {
-		n += v
+	for k, v := range c.failKeys {
+		if !strings.HasPrefix(k, "obs/") {
+			n += v
+		}
 	}
 	return n
 }
